@@ -218,6 +218,66 @@ Lemma dropping_for_a_taken_version_is_unsound :
   end.
 Proof. cbn. repeat split; reflexivity. Qed.
 
+(* A-B-A: the list returns to a content it had before — the content of the file — under
+   a newer version, and the newer snapshot reaches persist() first.  persist() compares
+   VERSIONS, never content: the newer snapshot is written (same lines, lastPersisted
+   advanced), the older sibling is then dropped; disk_converges covers it like any other
+   interleaving.  Set a. saved; Remove a. (v2); Set a. (v3); persist v3; persist v2. *)
+Definition aba_k : str := [97; 46].
+Definition aba_s0 : sys := init (mk_bl [] [] []) None.
+Definition aba_s1 : sys := sys_persist 0 (snd (sys_mutate (OpSet aba_k) [aba_k] [] aba_s0)).
+Definition aba_s3 : sys := snd (sys_mutate (OpSet aba_k) [aba_k] [] (snd (sys_mutate (OpRemove aba_k) [] [] aba_s1))).
+Definition aba_s5 : sys := sys_persist 0 (sys_persist 1 aba_s3).
+Lemma aba_is_an_interleaving : steps aba_s0 aba_s5.
+Proof.
+  assert (P : forall i s, Nat.ltb i (length (s_pending s)) = true -> step s (sys_persist i s))
+    by (intros i s H; apply StepPersist, Nat.ltb_lt, H).
+  assert (M : forall o ex wi s, ex = bm (snd (apply_op o (s_mem s))) -> wi = bwild (snd (apply_op o (s_mem s))) ->
+              step s (snd (sys_mutate o ex wi s)))
+    by (intros o ex wi s -> ->; apply StepMutate; split; apply Permutation_refl).
+  unfold aba_s5. eapply steps_next; [|apply P; reflexivity].
+  eapply steps_next; [|apply P; reflexivity].
+  unfold aba_s3. eapply steps_next; [|apply M; reflexivity].
+  eapply steps_next; [|apply M; reflexivity].
+  unfold aba_s1. eapply steps_next; [|apply P; reflexivity].
+  eapply steps_next; [|apply M; reflexivity].
+  apply steps_refl.
+Qed.
+Lemma aba_example :
+  s_local aba_s1 = Some (snap_bytes (mk_snap 1 [aba_k] [])) /\
+  List.map sn_ver (s_pending aba_s3) = [2; 3] /\ bm (s_mem aba_s3) = [aba_k] /\
+  s_pending aba_s5 = [] /\ s_last aba_s5 = 3 /\ s_version aba_s5 = 3 /\
+  s_local aba_s5 = Some (snap_bytes (mk_snap 3 (bm (s_mem aba_s5)) [])).
+Proof. cbn. repeat split; reflexivity. Qed.
+
+Lemma aba_converges_lemma :
+  steps aba_s0 aba_s5 /\ s_pending aba_s5 = [] /\
+  (* the content of the file when v3 was saved was already v3's content *)
+  s_local aba_s1 = Some (snap_bytes (mk_snap 3 [aba_k] [])) /\
+  s_last aba_s5 = s_version aba_s5 /\
+  s_local aba_s5 = Some (snap_bytes (mk_snap (s_version aba_s5) (bm (s_mem aba_s5)) (bwild (s_mem aba_s5)))).
+Proof. split; [exact aba_is_an_interleaving|]. cbn. repeat split; reflexivity. Qed.
+
+(* ... and a persist() that skips a snapshot because its CONTENT equals the file, without
+   recording its version, is unsound on exactly this history: v3 is skipped, v2 then passes
+   the version guard and is written — the file holds the empty list, the memory holds a. *)
+Definition persist_skip_equal (sn : snap) (s : sys) : sys :=
+  if negb (sn_ver sn =? 0) && (sn_ver sn <=? s_last s) then s
+  else match s_local s with
+       | Some f => if str_eqb f (snap_bytes sn) then s
+                   else mk_sys (s_mem s) (s_version s) (sn_ver sn) (Some (snap_bytes sn)) (s_pending s)
+       | None => mk_sys (s_mem s) (s_version s) (sn_ver sn) (Some (snap_bytes sn)) (s_pending s)
+       end.
+Lemma skipping_equal_content_is_unsound :
+  match s_pending aba_s3 with
+  | [v2; v3] =>
+      let s := persist_skip_equal v2 (persist_skip_equal v3 aba_s3) in
+      s_local s = Some (snap_bytes (mk_snap 2 [] [])) /\ s_last s = 2 /\ bm (s_mem s) = [aba_k]
+      /\ s_local s <> Some (snap_bytes (mk_snap 3 (bm (s_mem s)) []))
+  | _ => False
+  end.
+Proof. cbn. repeat split; try reflexivity. discriminate. Qed.
+
 (* ---------------------------------------------------------------- interruption *)
 
 Lemma fold_writes d chunks acc :
